@@ -398,19 +398,13 @@ def oracle_C20(run):
             if f['sid'] not in R or f['len'] > sb['max_in']:
                 ok = False
                 break
-            # still remembered as closed by our reset (the memory is bounded)
-            if f['sid'] in sb['streams']:
-                if sb['streams'][f['sid']][1] != 'SEND_RST_STREAM':
-                    ok = False
-                    break
-            elif sb['closed'].get(f['sid']) != 'SEND_RST_STREAM':
-                ok = False
-                break
+            # (the oracle keeps its own record of what the application reset; the library's `closed_by` is part of
+            # what is being judged.  `sb['closed']` not None: few closed streams, nothing evicted from the memory)
             if f['type'] == wire.DATA:
                 total += f['len']
             elif f['type'] == wire.HEADERS:
-                if not f['end_headers']:
-                    ok = False
+                if not f['end_headers'] or (f.get('prio') and f['prio'][0] == f['sid']):
+                    ok = False          # (a stream depending on itself is a connection error whatever the stream's state)
                     break
             elif f['type'] in (wire.WINDOW_UPDATE, wire.RST_STREAM):
                 pass
@@ -420,6 +414,24 @@ def oracle_C20(run):
         if not ok or total > sb['in_win']:
             continue
         if any(rec['res'][0] != 'ok' for rec in (obs.get('dec_recs') or [])):
+            continue
+        # a header block that is malformed whatever the stream's state (a 1xx response with END_STREAM, a block the rule
+        # book refuses) is the peer's protocol violation, not a frame racing a reset
+        import rulebook
+        blocks = [[(bytes(h[0]), bytes(h[1])) for h in rec['res'][1]] for rec in (obs.get('dec_recs') or [])]
+        hframes = [f for f in fs if f['type'] == wire.HEADERS]
+        well_formed = len(blocks) == len(hframes)
+        for f, hs in zip(hframes, blocks):
+            if run.world.conns[c].client:
+                status = next((v for n, v in hs if n == b':status'), None)
+                if status is not None and status[:1] == b'1':
+                    if f['end_stream'] or rulebook.block_problem(hs, 'informational'):
+                        well_formed = False
+                elif rulebook.block_problem(hs, 'response') and (rulebook.block_problem(hs, 'trailers') or not f['end_stream']):
+                    well_formed = False
+            elif rulebook.block_problem(hs, 'request') and (rulebook.block_problem(hs, 'trailers') or not f['end_stream']):
+                well_formed = False
+        if not well_formed:
             continue
         if r[0] != 'ok':
             out.append(fail('frame-racing-local-reset-broke-the-connection', i, res=obs['res'],
